@@ -231,7 +231,18 @@ def C16(tier, seed):
         "escape x both flags x explicit-range/NUL-terminated, unescape x plus-to-space x 4 break modes, both widths; output buffers of exactly 3n+1 / 6n+1 / n+1 characters ending at a PROT_NONE page. non-trivial = non-empty input; distinct by input text",
         ["TLC/SANY, CommunityModules", "spec/UriEscape.tla", "guard pages make an out-of-bounds write an event"])
 
-CHECKS = {"C16": C16, "C01": C01, "C02": C02, "C03": C03, "C04": C04, "C05": C05, "C06": C06, "C08": C08, "C09": C09, "C11": C11}
+def C17(tier, seed):
+    return _simple("C17", tier, seed, "MC_Query", "MC_Query.cfg", "MC_Query_t.cfg",
+        "lists of up to 2 (thorough 3) items over {a & = + SP % CR LF 0xff}: Dissect(Compose(l)) = l minus vanishing items, Required >= Len(Compose), legal query characters, scaled INT_MAX refusal",
+        "query", "Trace_Query",
+        "lists: every single item with key/value over an 11-character alphabet up to length 2 (value NULL / empty / text), zero-slack lists whose every character expands to the worst case, random lists of 1..4 items with bytes 1..255; x both compose flags; "
+        "chars-required, composing with every capacity from -1 to required+2 (guard-page and canary layouts, charsWritten NULL or not), the malloc variants (default and recording manager) dissected again; "
+        "dissection of every arrangement of & = a %41 + %0D%0A % up to length 4 (thorough 6) x plus-to-space x break modes; key+value of 2*10^8 characters for the INT_MAX clause (UBSan: a signed overflow is a crash). "
+        "non-trivial = non-empty list / text; distinct by (list, flags) or (text, flag)",
+        ["TLC/SANY, CommunityModules", "spec/UriQuery.tla (relation: between the real length and the worst case either outcome of composing is allowed)", "INT_MAX arithmetic is model-checked on a scaled constant and exercised at real scale for two giant inputs only"],
+        extra_args=["--n", "300000" if tier == "thorough" else "30000"])
+
+CHECKS = {"C16": C16, "C17": C17, "C01": C01, "C02": C02, "C03": C03, "C04": C04, "C05": C05, "C06": C06, "C08": C08, "C09": C09, "C11": C11}
 
 # ------------------------------------------------------------------ known findings triage, replay
 def triage(pid, violations, kf):
